@@ -7,7 +7,7 @@ pub mod util;
 
 #[cfg(feature = "c02")]
 pub mod c02;
-#[cfg(feature = "c03")]
+#[cfg(any(feature = "c03", feature = "c12", feature = "c13", feature = "c14", feature = "c01", feature = "c06", feature = "c18"))]
 pub mod c03;
 #[cfg(feature = "c04")]
 pub mod c04;
@@ -21,6 +21,8 @@ pub mod c07;
 #[cfg(feature = "c09")]
 pub mod c09;
 
+#[cfg(feature = "c12")]
+pub mod c12;
 #[cfg(feature = "c16")]
 pub mod c16;
 
